@@ -103,6 +103,10 @@ func C01(ctx *core.Ctx) {
 	// ---- R1 + R2 ----------------------------------------------------------
 	var delivery *ssa.Function
 	var deliveryLookup *ssa.Lookup
+	// lookup helpers: methods of the registry that return the (channel, ok) pair of a comma-ok
+	// lookup keyed by their own op-id parameter; the delivery function may go through one
+	lookupHelper := map[*ssa.Function]*ssa.Lookup{}
+	var deliveryTuple ssa.Value // the (chan, ok) tuple the delivery function works with: the lookup itself or the helper call
 	lockCache := map[*ssa.Function]map[ssa.Instruction]ssax.LockSet{}
 	locksAt := func(fn *ssa.Function, in ssa.Instruction) ssax.LockSet {
 		if lockCache[fn] == nil {
@@ -164,10 +168,32 @@ func C01(ctx *core.Ctx) {
 							}
 						}
 						if isDelivery {
-							delivery, deliveryLookup = fa.Fn, lk
+							delivery, deliveryLookup, deliveryTuple = fa.Fn, lk, lk
 						}
-						ctx.Check(role == "Register" || isDelivery, "C01.R1", desc, r.IPos(mu2.Instr),
-							"lookup in Register (duplicate check) or in the delivery function",
+						// a helper of the registry itself that hands the pair back to its caller
+						isHelper := false
+						if lk.CommaOk && !isDelivery && fa.Fn.Signature.Recv() != nil && ssax.TypeNamed(fa.Fn.Signature.Recv().Type(), "", "fRegistryImpl") && !token.IsExported(fa.Fn.Name()) {
+							rets := ReturnedValues(fa.Fn)
+							isHelper = len(rets) > 0
+							for _, vs := range rets {
+								if len(vs) != 2 {
+									isHelper = false
+									continue
+								}
+								t0, ok0 := ExtractOf(vs[0], 0)
+								t1, ok1 := ExtractOf(vs[1], 1)
+								if !ok0 || !ok1 || t0 != ssa.Value(lk) || t1 != ssa.Value(lk) {
+									isHelper = false
+								}
+							}
+							if isHelper && len(fa.Fn.Params) == 2 && ssax.Strip(lk.Index) == ssa.Value(fa.Fn.Params[1]) {
+								lookupHelper[fa.Fn] = lk
+							} else {
+								isHelper = false
+							}
+						}
+						ctx.Check(role == "Register" || isDelivery || isHelper, "C01.R1", desc, r.IPos(mu2.Instr),
+							"lookup in Register (duplicate check), in the delivery function or in a lookup helper of the registry",
 							"lookup of a result channel outside Register/delivery: another function can obtain a caller's private channel")
 					case "len":
 						ctx.Discharge("C01.R1", desc, r.IPos(mu2.Instr), "len is read-only")
@@ -178,6 +204,30 @@ func C01(ctx *core.Ctx) {
 				}
 			default:
 				ctx.Violate("C01.R1", fname+" › address of "+mapField+" used by "+u.String(), r.IPos(u), "address of the registry map escapes")
+			}
+		}
+	}
+
+	// delivery through a lookup helper: the function that sends on the channel a helper returned;
+	// the helper may be called by the registry's own Register/delivery only
+	for h, hlk := range lookupHelper {
+		for _, f := range r.Fns {
+			for _, c := range ssax.Calls(f) {
+				if c.Static != h {
+					continue
+				}
+				sends := false
+				for _, ss := range SendSites(f) {
+					if t, ok := ExtractOf(ss.Chan, 0); ok && t == c.Instr.Value() {
+						sends = true
+					}
+				}
+				okCaller := regImpl[f] == "Register" || (sends && regImpl[f] != "")
+				ctx.Check(okCaller, "C01.R1", ssax.Name(f)+" › uses lookup helper "+ssax.Name(h), r.IPos(c.Instr), "called by the registry's Register/delivery only",
+					"a function other than the registry's own delivery obtains a caller's private channel through "+ssax.Name(h))
+				if sends && delivery == nil {
+					delivery, deliveryLookup, deliveryTuple = f, hlk, c.Instr.Value()
+				}
 			}
 		}
 	}
@@ -197,20 +247,26 @@ func C01(ctx *core.Ctx) {
 				frameParam = p
 			}
 		}
-		ctx.Check(opidParam != nil && ssax.Strip(lk.Index) == ssa.Value(opidParam), "C01.R3", dn+" › lookup key", r.IPos(lk),
+		keyOK := opidParam != nil && ssax.Strip(lk.Index) == ssa.Value(opidParam)
+		if hc, isCall := deliveryTuple.(*ssa.Call); isCall {
+			// through the helper: the helper keys by its parameter (checked above), delivery passes its op-id parameter
+			hcc, _ := ssax.AsCall(hc)
+			keyOK = opidParam != nil && len(hcc.Common.Args) == 2 && ssax.Strip(hcc.Common.Args[1]) == ssa.Value(opidParam)
+		}
+		ctx.Check(keyOK, "C01.R3", dn+" › lookup key", r.IPos(lk),
 			"channel looked up with the op-id parameter", "delivery looks the channel up with something other than its op-id parameter")
 		nsend := 0
 		for _, ss := range SendSites(delivery) {
 			nsend++
 			t, ok := ExtractOf(ss.Chan, 0)
-			ctx.Check(ok && t == ssa.Value(lk), "C01.R3", dn+" › send channel", r.IPos(ss.Instr),
+			ctx.Check(ok && t == deliveryTuple, "C01.R3", dn+" › send channel", r.IPos(ss.Instr),
 				"send is on the channel registered under the op id", "delivery sends on a channel that is not the one registered under the frame's op id")
 			ctx.Check(frameParam != nil && ssax.Strip(ss.X) == ssa.Value(frameParam), "C01.R3", dn+" › sent value", r.IPos(ss.Instr),
 				"the frame parameter is what is sent", "delivery sends something other than the frame it was given")
 		}
 		// miss edge: from the false successor of the ok test no send is reachable
 		var okVal ssa.Value
-		for _, u := range *lk.Referrers() {
+		for _, u := range *deliveryTuple.Referrers() {
 			if e, ok := u.(*ssa.Extract); ok && e.Index == 1 {
 				okVal = e
 			}
